@@ -54,7 +54,11 @@ class Parser:
             field_name = field["name"]
             production.insert(0, FieldStart(field_name))
 
-            if schema_name is not None and schema_name in field["type"]:
+            field_type = field["type"]
+            if schema_name is not None and (
+                field_type == schema_name
+                or (isinstance(field_type, list) and schema_name in field_type)
+            ):
                 # this meanns a recursive relationship, so we force a `null`
                 internal_record = Sequence(
                     Alternative([Null()], ["null"], default=None), Union()
